@@ -16,10 +16,12 @@ Definition xF (tab : list beh) (k cnt : nat) (gi : ginput XV XQ) : gres nat :=
   match nth cnt tab BOk with
   | BOk => GOk nat k | BNone => GNone nat | BRaise => GRaise nat | BWrong => GWrong nat end.
 
-Definition xrun (w : wrapper) (p : list instr) (c : call) (sch : sched) (tab : list beh) (cnt : nat)
-           (st : list xobj) : result XV XQ xattr (list nat) :=
-  getBH_level2 XV XQ xattr nat (list nat) (0, 0, 0)%Z 0%Z a_key a_dim a_exc a_shape (fun l => l) (xF tab)
+(* rn: the re-normalisation of a stored orientation (identity on the exact orientation ids) *)
+Definition xrun_r (rn : XQ -> XQ) (w : wrapper) (p : list instr) (c : call) (sch : sched) (tab : list beh)
+           (cnt : nat) (st : list xobj) : result XV XQ xattr (list nat) :=
+  getBH_level2 XV XQ xattr nat (list nat) (0, 0, 0)%Z 0%Z rn a_key a_dim a_exc a_shape (fun l => l) (xF tab)
                w p c sch cnt st.
+Definition xrun := xrun_r (fun q => q).
 
 Definition no_sched : sched := mkSched (fun _ => None) (fun _ => None).
 Definition anon_at (pc : nat) : sched :=
